@@ -185,6 +185,155 @@ fn index_layer(out: &mut String) {
     writeln!(out, "def nFunctions : Nat := {}\ndef nOpaque : Nat := {}\n\nend Soa.Extracted", keys.len(), opaque).unwrap();
 }
 
+// ---------- generic.rs + src/lib.rs: RangeBounds conversion, forwarding, associated types, provided methods ----------
+fn lean_str(s: &str) -> String { format!("\"{}\"", s.replace('\\', "\\\\").replace('"', "\\\"")) }
+
+fn bexpr(e: &Expr) -> String {
+    let s = ts(e);
+    if s == "*i" { return ".val".into(); }
+    if s == "0" { return ".zero".into(); }
+    if s == "n" { return ".len".into(); }
+    if s.starts_with("i.checked_add(1).expect(") { return ".checkedSucc".into(); }
+    if s == "*i+1" { return ".plainSucc".into(); }
+    if s == "(*i+1).min(n)" { return ".succMinLen".into(); }
+    format!("(.opaque {})", lean_str(&s))
+}
+
+/// `match index.X_bound() { Included(i) => a, Excluded(i) => b, Unbounded => c }` -> (a, b, c)
+fn bound_match(e: &Expr) -> Option<(String, String, String)> {
+    if let Expr::Match(m) = e {
+        let (mut inc, mut exc, mut unb) = (None, None, None);
+        for arm in &m.arms {
+            let pat = ts(&arm.pat);
+            let val = bexpr(&arm.body);
+            if pat.contains("Included") { inc = Some(val.clone()); }
+            if pat.contains("Excluded") { exc = Some(val.clone()); }
+            if pat.contains("Unbounded") { unb = Some(val.clone()); }
+        }
+        return Some((inc?, exc?, unb?));
+    }
+    None
+}
+
+fn conv_of(f: &syn::ImplItemFn) -> Option<(String, String, String, String, String, String, String)> {
+    // let start = match ..; let n = self.len(); let end = match ..; self.index(start..end)
+    let st = &f.block.stmts;
+    if st.len() != 4 { return None; }
+    let init = |s: &syn::Stmt, name: &str| -> Option<Expr> {
+        if let syn::Stmt::Local(l) = s { if ts(&l.pat) == name { return l.init.as_ref().map(|i| (*i.expr).clone()); } }
+        None
+    };
+    let start = bound_match(&init(&st[0], "start")?)?;
+    if ts(&init(&st[1], "n")?) != "self.len()" { return None; }
+    let end = bound_match(&init(&st[2], "end")?)?;
+    let call = match &st[3] { syn::Stmt::Expr(e, None) => ts(e), _ => return None };
+    let m = match call.as_str() { "self.index(start..end)" => ".index", "self.index_mut(start..end)" => ".indexMut", _ => return None };
+    Some((start.0, start.1, start.2, end.0, end.1, end.2, m.to_string()))
+}
+
+/// how a generated trait method is implemented
+fn fwd_kind(name: &str, args: &[String], body: &str) -> String {
+    let call_args: Vec<&str> = args.iter().filter(|a| !a.contains("self")).map(|a| a.as_str()).collect();
+    let a = call_args.join(",");
+    for cand in [format!("{{self.{}({})}}", name, a), format!("{{self.{}({});}}", name, a), format!("{{Self::{}({})}}", name, a)] {
+        if body == cand { return ".sameName".into(); }
+    }
+    match (name, body) {
+        ("as_slice", "{self.reborrow::<'c>()}") => ".reborrow".into(),
+        ("as_mut_slice", "{self.reborrow()}") => ".reborrow".into(),
+        ("iter", "{self.as_ref().into_iter()}") => ".asRefIntoIter".into(),
+        ("apply_index", "{self.__private_apply_permutation(&mut::soa_derive::Permutation::oneline(indices).inverse());}") => ".applyInversePermutation".into(),
+        ("apply_index", "{use::soa_derive::SoASliceMut;self.as_mut_slice().apply_index(indices);}") => ".viaMutSlice".into(),
+        _ => ".unknown".into(),
+    }
+}
+fn provided_kind(name: &str, body: &str) -> String {
+    match (name, body) {
+        ("first", "{self.get(0)}") => ".getZero".into(),
+        ("first_mut", "{self.get_mut(0)}") => ".getMutZero".into(),
+        ("last", "{self.get(self.len().saturating_sub(1))}") => ".getLenSatSub1".into(),
+        ("last_mut", "{self.get_mut(self.len().saturating_sub(1))}") => ".getMutLenSatSub1".into(),
+        ("sort_by", "{letmutpermutation:Vec<usize>=(0..self.len()).collect();permutation.sort_by(|j,k|f(self.index(*j),self.index(*k)));self.apply_index(&permutation);}") => ".argsortByThenApply".into(),
+        ("sort_by_key", "{letmutpermutation:Vec<usize>=(0..self.len()).collect();permutation.sort_by_key(|j|f(self.index(*j)));self.apply_index(&permutation);}") => ".argsortByKeyThenApply".into(),
+        _ => ".unknown".into(),
+    }
+}
+fn gen_type(def: &str) -> String {
+    for (suffix, tag) in [("SliceMut<'t>", ".sliceMut"), ("Slice<'t>", ".slice"), ("RefMut<'t>", ".refMut"), ("Ref<'t>", ".ref"), ("IterMut<'t>", ".iterMut"), ("Iter<'t>", ".iter"), ("PtrMut", ".ptrMut"), ("Ptr", ".ptr")] {
+        if def == format!("P{}", suffix) { return tag.into(); }
+    }
+    ".other".into()
+}
+
+fn generic_layer(out: &mut String) {
+    use std::fmt::Write;
+    let src = "pub struct P { pub a: A, #[nested_soa] pub n: N, pub c: C }";
+    let ast: syn::DeriveInput = syn::parse_str(src).expect("parse");
+    let input = input::Input::new(ast);
+    writeln!(out, "-- generated by /verif/extract from /repo/soa-derive-internal/src/generic.rs and /repo/src/lib.rs; do not edit").unwrap();
+    writeln!(out, "import Soa.Model.Bounds\nnamespace Soa.Extracted\nopen Soa.IdxIR Soa.Bounds\n").unwrap();
+    let mut convs = vec![]; let mut fwd = vec![]; let mut assoc = vec![]; let mut fwdk = vec![]; let mut assock = vec![];
+    for (tstream, kind_shared, kind_mut) in [(generic::derive_slice(&input), "slice", "sliceMut"), (generic::derive_slice_mut(&input), "slice", "sliceMut"), (generic::derive_vec(&input), "vecRef", "vecMut")] {
+        let file: syn::File = syn::parse2(tstream).expect("generic parses");
+        for item in &file.items {
+            if let Item::Impl(im) = item {
+                let (_, path, _) = im.trait_.as_ref().expect("trait impl");
+                let tr = path.segments.last().unwrap().ident.to_string();
+                for ii in &im.items {
+                    match ii {
+                        ImplItem::Fn(f) => {
+                            let name = f.sig.ident.to_string();
+                            if name == "slice" || name == "slice_mut" {
+                                let kind = if name == "slice" { kind_shared } else { kind_mut };
+                                match conv_of(f) {
+                                    Some(c) => convs.push(format!("{{ name := {}, kind := .{}, startInc := {}, startExc := {}, startUnb := {}, endInc := {}, endExc := {}, endUnb := {}, call := {} }}",
+                                        lean_str(&format!("{}::{}", tr, name)), kind, c.0, c.1, c.2, c.3, c.4, c.5, c.6)),
+                                    None => convs.push(format!("{{ name := {}, kind := .{}, startInc := .opaque {}, startExc := .val, startUnb := .val, endInc := .val, endExc := .val, endUnb := .val, call := .index }}",
+                                        lean_str(&format!("{}::{}", tr, name)), kind, lean_str(&ts(&f.block)))),
+                                }
+                            } else {
+                                let args: Vec<String> = f.sig.inputs.iter().map(|a| match a { syn::FnArg::Receiver(r) => ts(r), syn::FnArg::Typed(t) => ts(&t.pat) }).collect();
+                                fwd.push(format!("({}, {}, {})", lean_str(&tr), lean_str(&format!("{}({})", name, args.join(","))), lean_str(&ts(&f.block))));
+                                fwdk.push(fwd_kind(&name, &args, &ts(&f.block)));
+                            }
+                        }
+                        ImplItem::Type(t) => { assoc.push(format!("({}, {}, {})", lean_str(&tr), lean_str(&t.ident.to_string()), lean_str(&ts(&t.ty))));
+                            assock.push(format!("(.{}, {})", { let n = t.ident.to_string(); let mut c = n.chars(); c.next().unwrap().to_lowercase().collect::<String>() + c.as_str() }, gen_type(&ts(&t.ty)))); }
+                        _ => {}
+                    }
+                }
+            }
+        }
+    }
+    writeln!(out, "def convs : List Conv := [\n  {}]\n", convs.join(",\n  ")).unwrap();
+    writeln!(out, "/-- (trait, method(args), body) of every generated trait method other than slice/slice_mut -/\ndef forwards : List (String × String × String) := [\n  {}]\n", fwd.join(",\n  ")).unwrap();
+    writeln!(out, "/-- how each of those methods is implemented, as classified by the translator -/\ndef forwardKinds : List FwdKind := [{}]\n", fwdk.join(", ")).unwrap();
+    writeln!(out, "/-- (associated type, generated type it names), as classified by the translator -/\ndef assocKinds : List (AssocName × GenType) := [{}]\n", assock.join(", ")).unwrap();
+    writeln!(out, "/-- (trait, associated type, definition) -/\ndef assocTypes : List (String × String × String) := [\n  {}]\n", assoc.join(",\n  ")).unwrap();
+    // provided (default) methods of the traits in src/lib.rs
+    let lib = std::fs::read_to_string("/repo/src/lib.rs").expect("src/lib.rs");
+    let file = syn::parse_file(&lib).expect("lib.rs parses");
+    let mut provided = vec![]; let mut providedk = vec![];
+    fn walk(items: &[Item], provided: &mut Vec<String>, providedk: &mut Vec<String>) {
+        for it in items {
+            match it {
+                Item::Mod(m) => if let Some((_, items)) = &m.content { walk(items, provided, providedk) },
+                Item::Trait(t) => for ti in &t.items {
+                    if let syn::TraitItem::Fn(f) = ti { if let Some(b) = &f.default {
+                        provided.push(format!("({}, {}, {})", lean_str(&t.ident.to_string()), lean_str(&f.sig.ident.to_string()), lean_str(&ts(b))));
+                        providedk.push(provided_kind(&f.sig.ident.to_string(), &ts(b)));
+                    } }
+                },
+                _ => {}
+            }
+        }
+    }
+    walk(&file.items, &mut provided, &mut providedk);
+    writeln!(out, "/-- (trait, provided method, body) from src/lib.rs -/\ndef provided : List (String × String × String) := [\n  {}]\n", provided.join(",\n  ")).unwrap();
+    writeln!(out, "def providedKinds : List ProvidedKind := [{}]\n", providedk.join(", ")).unwrap();
+    writeln!(out, "end Soa.Extracted").unwrap();
+}
+
 /// write only when the content changed, so that `lake build` re-checks nothing on an unchanged tree
 fn write_if_changed(path: &str, content: &str) {
     if std::fs::read_to_string(path).map(|old| old == content).unwrap_or(false) { return; }
@@ -198,4 +347,7 @@ fn main() {
     let mut s = String::new();
     index_layer(&mut s);
     write_if_changed(&format!("{}/Index.lean", outdir), &s);
+    let mut g = String::new();
+    generic_layer(&mut g);
+    write_if_changed(&format!("{}/Generic.lean", outdir), &g);
 }
